@@ -2280,7 +2280,8 @@ class Tree:
         :rtype: collections.abc.Iterable
         """
         roots = [u]
-        if u is None:
+        if u is None or u == self.virtual_root:
+            # Sample lists are not maintained for the virtual root
             roots = self.roots
         for root in roots:
             yield from self._sample_generator(root)
